@@ -206,6 +206,84 @@ def has_api_passthrough_group(spec):
     return any(n["k"] == "grp" and n["bm"] == "pass_through" for _, n in cc.walk(spec["layers"]))
 
 
+def fixture_noalpha_exposed(rel, viewport):
+    from psd_tools import PSDImage
+
+    psd = PSDImage.open(os.path.join(FIXDIR, rel))
+    vp = tuple(viewport) if viewport else psd.viewbox
+    for l in psd.descendants():
+        if l.kind in ("pixel", "smartobject", "type", "shape") and l.is_visible() and l.has_pixels() and l.numpy("shape") is None:
+            bb = l.bbox
+            if not (bb[0] <= vp[0] and bb[1] <= vp[1] and bb[2] >= vp[2] and bb[3] >= vp[3]):
+                return True
+    return False
+
+
+def _c13_2(fl):
+    """a composited pixel layer without transparency plane is opaque over the whole viewport, not over its box"""
+    inp = fl["input"]
+    if not (fl["kind"] in ("viewport-not-crop", "passthrough-wrap-changes-result") or fl["kind"].startswith("noop-layer-changes-result")):
+        return False
+    vp = inp.get("full_viewport")  # None = the canvas; a layer covering the top viewport covers every nested one
+    if "fixture" in inp:
+        return fixture_noalpha_exposed(inp["fixture"], vp)
+    return cc.noalpha_exposed(inp["spec"], vp) or ("spec2" in inp and cc.noalpha_exposed(inp["spec2"], vp))
+
+
+core.KNOWN_CLASSIFIERS["F-C13-2"] = _c13_2
+
+
+def _w_c13_2():
+    logging.disable(logging.WARNING)
+    from .c11 import W_C11_1
+    big, vp = (0, 0, 3, 1), (1, 0, 3, 1)
+    rb = cc.run_impl(cc.build_doc(W_C11_1), viewport=big)
+    rv = cc.run_impl(cc.build_doc(W_C11_1), viewport=vp)
+    return cc.same_result(cc.crop(rb, big, vp), rv) is not None
+
+
+core.KNOWN_WITNESS["F-C13-2"] = _w_c13_2
+
+def fixture_stroke_effect_cut(rel, viewport):
+    """some composited layer carries an enabled stroke EFFECT and the viewport cuts through its box"""
+    from psd_tools import PSDImage
+
+    psd = PSDImage.open(os.path.join(FIXDIR, rel))
+    vp = tuple(viewport)
+    for l in psd.descendants():
+        try:
+            strokes = list(l.effects.find("stroke")) if l.is_visible() else []
+        except Exception:
+            strokes = []
+        if strokes:
+            bb = l.bbox
+            meets = max(bb[0], vp[0]) < min(bb[2], vp[2]) and max(bb[1], vp[1]) < min(bb[3], vp[3])
+            inside = vp[0] <= bb[0] and vp[1] <= bb[1] and bb[2] <= vp[2] and bb[3] <= vp[3]
+            if meets and not inside:
+                return True
+    return False
+
+
+def _c13_3(fl):
+    inp = fl["input"]
+    return fl["kind"] == "viewport-not-crop" and "fixture" in inp and fixture_stroke_effect_cut(inp["fixture"], inp["viewport"])
+
+
+core.KNOWN_CLASSIFIERS["F-C13-3"] = _c13_3
+
+
+def _w_c13_3():
+    from psd_tools import PSDImage
+
+    logging.disable(logging.WARNING)
+    p = os.path.join(FIXDIR, "effects", "shape-fx2.psd")
+    full = cc.run_impl(PSDImage.open(p), viewport=(0, 0, 32, 32))
+    part = cc.run_impl(PSDImage.open(p), viewport=(0, 0, 16, 32))
+    return cc.same_result(cc.crop(full, (0, 0, 32, 32), (0, 0, 16, 32)), part) is not None
+
+
+core.KNOWN_WITNESS["F-C13-3"] = _w_c13_3
+
 core.KNOWN_CLASSIFIERS["F-C13-1"] = lambda fl: (
     fl["kind"] == "reopen-changes-result:group-new-unpatched" and has_api_passthrough_group(fl["input"]["spec"]))
 
@@ -389,6 +467,8 @@ def run():
     from psd_tools.composite import _intersect, paste
 
     ck = Check("C13")
+    for old in glob.glob(os.path.join(core.BUILD, "replays", "C13-*.json")):
+        os.remove(old)  # replays of earlier runs must not be mistaken for this run's
     thorough = ck.tier == "thorough"
     ck.rule = ("generated documents of the C11 generator (all modes) x backdrops: 3 viewports each (inside, straddling, covering, outside, "
                "degenerate zero-width/height) against the crop of a larger viewport; one no-op layer of each kind (hidden, alpha 0, opacity 0, "
@@ -410,7 +490,7 @@ def run():
     ndocs = 6000 if thorough else 700
     model_cases = []
     for i in range(ndocs):
-        spec = cc.gen_doc(ck.rng, ALL_MODES if i % 4 else MODEL_MODES)
+        spec = cc.gen_doc(ck.rng, ALL_MODES if i % 4 else MODEL_MODES, p_noalpha=0.04)
         col, al = cc.gen_backdrop(ck.rng, cc.NCH[spec["mode"]])
         ck.count("mode:" + spec["mode"] + ("+A" if spec["docalpha"] else ""))
         try:
@@ -454,7 +534,17 @@ def run():
     pairs = list(gen_rect_pairs(ck.rng, 40000 if thorough else 6000))
     icases = []
     for a, b in pairs:
-        icases.append(((a, b), list(_intersect(a, b))))
+        try:
+            got = list(_intersect(a, b))
+        except Exception as e:
+            got = [-1000 - core.exc_code(e)]
+            report("intersect-raises", {"a": list(a), "b": list(b)}, repr(e)[:200], "a rectangle")
+        icases.append(((a, b), got))
+        # the property of _intersect itself: the common pixels, or the (0,0,0,0) sentinel when there are none
+        l, t, r, b_ = max(a[0], b[0]), max(a[1], b[1]), min(a[2], b[2]), min(a[3], b[3])
+        want = [l, t, r, b_] if l < r and t < b_ else [0, 0, 0, 0]
+        if got != want:
+            report("intersect-wrong", {"a": list(a), "b": list(b)}, got, want)
     ck.correspond("intersect", "intersect_case", cc.COMP_IMPORTS, icases,
                   lambda p: "((%d,%d,%d,%d),(%d,%d,%d,%d))" % (p[0] + p[1]), chunk=3000)
     pcases = []
@@ -464,17 +554,31 @@ def run():
         bg = ck.rng.choice([0, 7])
         h, w = bb[3] - bb[1], bb[2] - bb[0]
         vals = (1 + np.arange(h * w, dtype=np.float32)).reshape((h, w, 1))
-        out = paste(vp, bb, vals, float(bg))
+        try:
+            out = paste(vp, bb, vals, float(bg))
+        except Exception as e:
+            report("paste-raises", {"viewport": list(vp), "bbox": list(bb)}, repr(e)[:200], "the pasted view")
+            pcases.append(((vp, bb, bg), [-1000 - core.exc_code(e)]))
+            continue
         pcases.append(((vp, bb, bg), [int(v) for v in out.reshape(-1)]))
+        # the property of paste itself, in absolute coordinates: the source value where the box covers the pixel
+        want = [[(1 + (y - bb[1]) * w + (x - bb[0])) if (bb[0] <= x < bb[2] and bb[1] <= y < bb[3]) else bg
+                 for x in range(vp[0], vp[2])] for y in range(vp[1], vp[3])]
+        if out[:, :, 0].astype(int).tolist() != want and out.size:
+            report("paste-wrong", {"viewport": list(vp), "bbox": list(bb), "background": bg}, out[:, :, 0].astype(int).tolist(), want)
         # the law itself, on arrays: pasting into a sub-viewport is the crop of pasting into the viewport
         if vp[2] - vp[0] >= 2 and vp[3] - vp[1] >= 1:
             sub = (vp[0] + 1, vp[1], vp[2], vp[3])
-            o2 = paste(sub, bb, vals, float(bg))
+            try:
+                o2 = paste(sub, bb, vals, float(bg))
+            except Exception as e:
+                report("paste-raises", {"viewport": list(sub), "bbox": list(bb)}, repr(e)[:200], "the pasted view")
+                continue
             if not np.array_equal(o2, out[:, 1:, :]):
                 report("paste-not-crop", {"viewport": list(vp), "bbox": list(bb), "sub": list(sub)}, o2.reshape(-1).tolist()[:20], "crop of the larger paste")
     ck.correspond("paste", "paste_case", cc.COMP_IMPORTS, pcases,
                   lambda p: "((%d,%d,%d,%d),(%d,%d,%d,%d),%d)" % (p[0] + p[1] + (p[2],)), chunk=600)
-    bad = ck.correspond("viewport-model", "check_case", cc.COMP_IMPORTS, model_cases, lambda a: cc.coq_case(*a),
+    bad = ck.correspond("viewport_model", "check_case", cc.COMP_IMPORTS, model_cases, lambda a: cc.coq_case(*a),
                         chunk=max(4, len(model_cases) // 32 + 1))
     for i in bad[:3]:
         sp, col, al, v, _ = model_cases[i][0]
